@@ -257,7 +257,7 @@ class Checker:
                         n0 = {x.id for x in ast.walk(m.args[0]) if isinstance(x, ast.Name)} | {x.attr for x in ast.walk(m.args[0]) if isinstance(x, ast.Attribute)}
                         # the lever arm is the application point: the parameter, the stored field, or the default pose on the
                         # path where the parameter is None
-                        is_default = 'tm()' in a0 and (pth.facts.get('%sisNone' % pos_p) is True or pth.facts.get('%s==None' % pos_p) is True)
+                        is_default = 'tm()' in a0 and any(pth.facts.get(k_ % nm_) is True for k_ in ('%sisNone', '%s==None') for nm_ in (pos_p, pos_p + '__was'))
                         if not ((pos_p in n0 or is_default) and force_p not in n0 and a1 == force_p):
                             ok = False
                             msgs.append('moment is cross(%s, %s); must be cross(position, force)' % (a0, a1))
